@@ -2,7 +2,7 @@
 
 Channels (see CONVENTIONS.md for the plugin interface):
   w   lib/dispatchcloud/worker     real worker/Pool/remoteRunner functions in a (state, timer) configuration
-                                   against the response model                    (ops tk sb pr sy kl uk sc o1 cr)
+                                   against the response model                    (ops tk sb pr sy kl uk sc o1 cr rs)
   s   lib/dispatchcloud/scheduler  real sync() / fixStaleLocks() against stubs    (ops sw fl)
   e2e lib/dispatchcloud            real dispatcher against the stub cloud with a randomized fault schedule,
                                    a restart, and a wall-clock deadline           (op  e2e)
@@ -168,6 +168,14 @@ def _gen_cr(rng, tier):
     return out
 
 
+def _gen_rs(rng, tier):
+    """Pool.runSync with failing list calls (plain errors, rate-limit errors) in every position"""
+    out = ["rs " + "".join(t) for k in (1, 2, 3, 4) for t in itertools.product("oer", repeat=k)]
+    for _ in range(300 if tier == "thorough" else 30):
+        out.append("rs " + "".join(rng.choice("ooeer") for _ in range(rng.randint(5, 12))))
+    return out
+
+
 def _gen_o1(rng, n):
     """start / probe / start-completion interleavings on one worker (runner objects; fixed finding F15a)"""
     out = []
@@ -309,6 +317,7 @@ def generate(rng, tier):
     cases += _gen_sc(rng, 5000 if big else 400)
     cases += _gen_o1(rng, 4000 if big else 300)
     cases += _gen_cr(rng, tier)
+    cases += _gen_rs(rng, tier)
     cases += _gen_sw(rng, 10000 if big else 800)
     cases += _gen_fl(rng, 3000 if big else 240)
     # malformed stream
@@ -584,6 +593,18 @@ def _oracle_cr(f, impl):
     return None
 
 
+def _oracle_rs(f, impl):
+    m = re.fullmatch(r"lists=(\d+)", impl)
+    if not m:
+        return "driver could not observe the case: " + impl[:200]
+    n = int(m.group(1))
+    if n <= len(f[1]):
+        k = f[1][n - 1] if n >= 1 else "?"
+        return (f"the pool stopped listing the cloud's instances after {n} call(s) (the last one answered "
+                f"'{k}'): Pool.sync no longer runs, so vanished instances are never dropped and Destroy is never retried")
+    return None
+
+
 def _oracle_o1(f, impl):
     if impl.startswith("panic"):
         return "the dispatcher process panics while probing a worker: " + impl[:120]
@@ -621,7 +642,7 @@ def oracle(case, impl):
     if impl == "bad-op":
         return None
     try:
-        fn = {"cr": _oracle_cr, "o1": _oracle_o1, "tk": _oracle_tk, "sb": _oracle_sb, "pr": _oracle_pr, "sy": _oracle_sy, "kl": _oracle_kl,
+        fn = {"rs": _oracle_rs, "cr": _oracle_cr, "o1": _oracle_o1, "tk": _oracle_tk, "sb": _oracle_sb, "pr": _oracle_pr, "sy": _oracle_sy, "kl": _oracle_kl,
               "uk": _oracle_uk, "sc": _oracle_sc, "sw": _oracle_sw, "fl": _oracle_fl, "e2e": _oracle_e2e}.get(f[0])
         return fn(f, impl) if fn else None
     except (ValueError, IndexError, KeyError) as e:
@@ -642,6 +663,8 @@ def nontrivial_key(case, impl):
         return case if "st" in case and "pa" in case else None
     if f[0] == "cr":
         return case if "a1" in impl else None
+    if f[0] == "rs":
+        return case if ("e" in f[1] or "r" in f[1]) else None
     if f[0] == "sw":
         return case if not impl.startswith("-;-;wake=0") else None
     if f[0] == "fl":
